@@ -25,6 +25,17 @@ CHECKS["C03"] = dict(
          "Needs no reference semantics.",
     ref="DESIGN.md §6 P-C03")
 
+CHECKS["C02"] = dict(
+    technique="runtime monitoring: offline checker over the recorded evaluation-record tree + online hook assertions on record open/close",
+    text="All CNF shapes up to 3x3 with leaves forced to PASS/FAIL/SKIP are evaluated at 9 composition sites (thorough: all ~490k; quick: "
+         "all shapes with <=2 lines plus a sample) and random programs with type blocks, parameterised rules, nested when/blocks are "
+         "evaluated on random documents. Each emitted EventRecord tree is checked node by node against the property's composition "
+         "rules, the rule status against the formula over the forced leaves, the hook stream for balanced records, and the root "
+         "status against the structured report and the exit code of `validate --print-json`.",
+    note="Trusts the leaf gadgets to have the intended status (itself asserted through the tree). Filter records are treated as "
+         "transparent; vacuous clauses (no value compared) are not constrained; error-terminated evaluations are exempt.",
+    ref="DESIGN.md §6 P-C02")
+
 PENDING = {}
 
 
